@@ -612,6 +612,13 @@ class World(object):
         if old.connected and old.dispatcher is not None:
             self.close_connection(old, old.dispatcher, notify=False)
         old.dead = True
+        # the old process is gone: whatever its connection had not committed is lost, its locks are released
+        try:
+            conn = old.manager()._store.sessionStore.dbConn
+            conn.rollback()
+            conn.close()
+        except Exception:
+            pass
         if wipe:
             for sfx in ("", "-journal", "-wal", "-shm"):
                 if os.path.exists(wipe + sfx):
